@@ -137,6 +137,12 @@ pub struct FmtSettings {
 fn array_node_to_formula_value(node: ArrayNode) -> FormulaValue {
     match node {
         ArrayNode::Boolean(b) => FormulaValue::Boolean(b),
+        // safety belt: same as the scalar path in `set_cells_with_result`
+        ArrayNode::Number(n) if !n.is_finite() => FormulaValue::Error {
+            ei: Error::NUM,
+            o: String::new(),
+            m: String::new(),
+        },
         ArrayNode::Number(n) => FormulaValue::Number(n),
         ArrayNode::String(s) => FormulaValue::Text(s),
         ArrayNode::Error(ei) => FormulaValue::Error {
@@ -151,6 +157,8 @@ fn array_node_to_formula_value(node: ArrayNode) -> FormulaValue {
 fn array_node_to_spill_value(node: ArrayNode) -> SpillValue {
     match node {
         ArrayNode::Boolean(b) => SpillValue::Boolean(b),
+        // safety belt: same as the scalar path in `set_cells_with_result`
+        ArrayNode::Number(n) if !n.is_finite() => SpillValue::Error(Error::NUM),
         ArrayNode::Number(n) => SpillValue::Number(n),
         ArrayNode::String(s) => SpillValue::Text(s),
         ArrayNode::Error(ei) => SpillValue::Error(ei),
